@@ -602,9 +602,10 @@ impl Tour {
 
     pub(super) fn new_dummy(path: Path, network: Arc<Network>) -> Result<Tour, String> {
         let mut nodes = path.consume();
-        // remove non-service nodes
-        nodes.retain(|&n| network.node(n).is_service());
-        if nodes.is_empty() {
+        // remove depots; maintenance nodes stay, as without them the remaining service nodes are in
+        // general not a path in the network any more
+        nodes.retain(|&n| !network.node(n).is_depot());
+        if !nodes.iter().any(|&n| network.node(n).is_service()) {
             return Err("Dummy tour needs to have at least one service nodes.".to_string());
         }
         Ok(Tour::new_computing(nodes, true, network))
